@@ -68,6 +68,7 @@ type VC struct {
 	noDef      int
 	noOblige   int
 	ufs        map[string][2]interface{}
+	noCover    int
 	reads      []groundRead
 	modelTerms []modelTerm
 	replay     *replayInfo
@@ -394,6 +395,9 @@ func sexprArgs(t string) []string {
 }
 
 func (vc *VC) cover(kind, pc string) {
+	if vc.noCover > 0 {
+		return
+	}
 	o := vc.oblige(kind, pc, "false", "cover: must be reachable (expected sat)")
 	o.Cover = true
 }
